@@ -30,9 +30,14 @@ func (w *c18World) c18AbsorbProbes(from int, at time.Time) {
 			truth = "ee"
 		}
 		switch {
-		case strings.Contains(truth, "r"):
-			// at least one family really has a record: the name may be verified
+		case strings.Contains(truth, "r") && !strings.Contains(truth, "e"):
+			// a record and no failure: the name is verified
 			w.verified[host] = true
+			delete(w.neg, host)
+			vkClass(c18UnitProbe, "probe_outcome_record_"+truth)
+		case strings.Contains(truth, "r"):
+			// a record from one family, the other lookup failed: either
+			w.maybeVerified[host] = true
 			delete(w.neg, host)
 			vkClass(c18UnitProbe, "probe_outcome_record_"+truth)
 		case truth == "ee":
